@@ -21,6 +21,8 @@ def run(ctx):
             ctx.mc("Dial", "MCDial_quick.cfg", timeout=600)
         else:
             ctx.mc("Dial", "MCDial_thorough.cfg", timeout=3000)
+            # three workers: the smallest configuration in which two targets are handed out at one instant
+            ctx.mc("Dial", "MCDial_c.cfg", timeout=3000)
         # 2. scenarios from the same Init
         scens = ctx.emit("DialScen", "DialScen3.cfg", timeout=300)
         if not ctx.quick:
